@@ -20,7 +20,9 @@ func newClockReference(base, extension int64) *ClockReference {
 
 // Duration converts the clock reference into duration
 func (p ClockReference) Duration() time.Duration {
-	return time.Duration(p.Base*1e9/90000) + time.Duration(p.Extension*1e9/27000000)
+	// The sum is made in 27 MHz ticks (300 per 90 kHz tick) before it is converted to nanoseconds: converting both terms
+	// on their own truncates twice
+	return time.Duration((p.Base*300 + p.Extension) * 1000 / 27)
 }
 
 // Time converts the clock reference into time
